@@ -176,13 +176,17 @@ Variable mul_mu0 div_mu0 : W -> W.
 Inductive fld := FB | FH | FJ | FM.
 Record csrow := mkCS { not_surf : bool; inside : bool; polv : W; hv : W }.
 
-Definition cylseg (exit_before_J exit_before_M : bool) (f : fld) (rows : list csrow) : list W :=
+(* exit_before_X: the all-on-surface exit precedes the X branch; zero_surf_X: the X branch zeroes
+   on-surface rows as well as outside rows (both translated, Gen) *)
+Definition cylseg (exit_before_J exit_before_M zero_surf_J zero_surf_M : bool) (f : fld)
+    (rows : list csrow) : list W :=
   let all_surf := negb (existsb not_surf rows) in
   let zeros := map (fun _ => wzero) rows in
-  let jm (scale : W -> W) := map (fun r => if inside r then scale (polv r) else scale wzero) rows in
+  let jm (zs : bool) (scale : W -> W) :=
+    map (fun r => if inside r && (negb zs || not_surf r) then scale (polv r) else scale wzero) rows in
   match f with
-  | FJ => if exit_before_J && all_surf then zeros else jm (fun w => w)
-  | FM => if exit_before_M && all_surf then zeros else jm div_mu0
+  | FJ => if exit_before_J && all_surf then zeros else jm zero_surf_J (fun w => w)
+  | FM => if exit_before_M && all_surf then zeros else jm zero_surf_M div_mu0
   | FH => if all_surf then zeros else map (fun r => if not_surf r then hv r else wzero) rows
   | FB => if all_surf then zeros
           else map (fun r => if not_surf r
